@@ -28,6 +28,8 @@ type FakeDaemon struct {
 	L      net.Listener
 	srv    *grpc.Server
 
+	LocalIA  uint64                  // answer of the AS request
+	PathSets map[uint64][]*sdpb.Path // answer of the Paths request, by destination ISD-AS
 	mu       sync.Mutex
 	failing  bool
 	hostAS   int // requests seen
@@ -135,4 +137,34 @@ func (d *FakeDaemon) DRKeyHostHost(ctx context.Context, rq *sdpb.DRKeyHostHostRe
 	}
 	b, e := d.EpochOf(t)
 	return &sdpb.DRKeyHostHostResponse{EpochBegin: timestamppb.New(b), EpochEnd: timestamppb.New(e), Key: k[:]}, nil
+}
+
+// AS answers the local-AS query (Pather, LocalIA).
+func (d *FakeDaemon) AS(ctx context.Context, rq *sdpb.ASRequest) (*sdpb.ASResponse, error) {
+	return &sdpb.ASResponse{IsdAs: d.LocalIA, Mtu: 1472}, nil
+}
+
+// Paths answers with the scripted path set of the destination.
+func (d *FakeDaemon) Paths(ctx context.Context, rq *sdpb.PathsRequest) (*sdpb.PathsResponse, error) {
+	d.mu.Lock()
+	defer d.mu.Unlock()
+	return &sdpb.PathsResponse{Paths: d.PathSets[rq.DestinationIsdAs]}, nil
+}
+
+// SetPaths scripts the path set of one destination.
+func (d *FakeDaemon) SetPaths(dst uint64, ps []*sdpb.Path) {
+	d.mu.Lock()
+	if d.PathSets == nil {
+		d.PathSets = map[uint64][]*sdpb.Path{}
+	}
+	d.PathSets[dst] = ps
+	d.mu.Unlock()
+}
+
+// DaemonPath builds one daemon path entry: raw dataplane path, underlay next hop and the two
+// interfaces that give it its fingerprint.
+func DaemonPath(raw []byte, nextHop string, srcIA, dstIA uint64, idx int) *sdpb.Path {
+	return &sdpb.Path{Raw: raw, Interface: &sdpb.Interface{Address: &sdpb.Underlay{Address: nextHop}},
+		Interfaces: []*sdpb.PathInterface{{IsdAs: srcIA, Id: uint64(1000 + idx)}, {IsdAs: dstIA, Id: uint64(2000 + idx)}},
+		Mtu:        1472, Expiration: timestamppb.New(time.Now().Add(6 * time.Hour))}
 }
